@@ -223,6 +223,30 @@ def run_batch(b):
             cfg = order(rng, cfg, how)
             judge(acc, cfg, bad, how, "convert" if rng.random() < 0.7 else "diameter")
         acc.sample({"config": {k: repr(v) for k, v in cfg.items()}})
+        # metamorphic: whether a configuration is accepted must not depend on the *position* of an entry in APPLICATIONS
+        # (the statement says nothing about ill-typed application ids, so the outcome itself is not judged - only that it
+        # is the same for every rotation of the list)
+        from bromelia._internal_utils import _convert_config_to_connection_obj as conv
+        for i in range(max(20, b["n"] // 100)):
+            cfg, _ = make_cfg(rng, "valid")
+            good = apps(rng) or [{"vendor_id": b"\x00\x00\x28\xaf", "app_id": b"\x01\x00\x00\x23"}]
+            odd = rng.choice([{"vendor_id": 10415, "app_id": b"\x01\x00\x00\x23"}, {"vendor_id": b"\x00\x00\x28\xaf", "app_id": "16777251"},
+                              {"vendor_id": b"\x00\x00\x28\xaf"}, {"vendor_id": None, "app_id": None}, {"vendor_id": b"\x00\x00\x28\xaf", "app_id": 4, "x": 1}])
+            lst = good + [odd]
+            outcomes = []
+            for r in range(len(lst)):
+                rot = lst[r:] + lst[:r]
+                c2 = dict(cfg, APPLICATIONS=[dict(e) for e in rot])
+                try:
+                    conv(c2)
+                    outcomes.append("accepted")
+                except BaseException as ex:
+                    outcomes.append("rejected" if type(ex).__module__.startswith("bromelia") else "raised-" + type(ex).__name__)
+            acc.evaluations += 1
+            acc.counters["application_list_rotations"] += len(lst)
+            if len(set(outcomes)) > 1:
+                acc.violation("application-entry-judged-by-position", "the same APPLICATIONS entries in %d rotations gave %s (odd entry %r)" % (len(lst), outcomes, odd),
+                              {"applications": repr(lst), "outcomes": outcomes})
     else:
         with tempfile.TemporaryDirectory() as td:
             for i in range(b["n"]):
@@ -244,7 +268,7 @@ def main(tier, seed):
                           ["booleans, integers or packed bytes as addresses, leading-zero octets are generated but not judged",
                            "only complete dictionaries (all 12 keys) are generated; invalid APPLICATIONS shapes are outside the listed reasons",
                            "YAML constants are resolved against a dictionary supplied by the harness"],
-                          t0, require_counters=("rejected_with_config_error", "accepted", "yaml_files"))
+                          t0, require_counters=("rejected_with_config_error", "accepted", "yaml_files", "application_list_rotations"))
 
 
 def replay(w):
